@@ -20,7 +20,8 @@ LEVEL_TEXT = ("Sequences of up to 40 actions drive one bridge object through sta
               "running yields exactly one callback; datagrams queued immediately before stop() never produce a callback after it "
               "returned. 'Never' is checked up to the point where the port is provably released. Sequences are sampled and shrunk.")
 RULE = ("case = number of ports + step list; non-trivial = contains a restart, a failed start on a port index > 0, or a send around "
-        "a stop; distinct by (ports, steps).")
+        "a stop; distinct by (ports, steps)."
+        ' Further actions: a second bridge object started on the same ports (rival_start), start with the file-descriptor limit lowered so that a later port fails with EMFILE (start_fd_exhausted), 0..4 loop turns between queued datagrams and stop(), context exit with an exception.')
 ASSUMPTIONS = [
     "start() while already running is undocumented and not generated",
     "a port is 'released' when a UDP socket without SO_REUSEADDR can bind 0.0.0.0:port after two event-loop cycles",
